@@ -94,7 +94,7 @@ def run(ctx):
             else:
                 ok, why = handler_recovers(ctx, f, tr, committer)
                 ctx.decide(ok, 'R-RECOVER', 'D1', f, node, construct, inst, detail=why)
-    ctx.floor('C10 callers of the ragged append step', n, 2)
+    ctx.floor('C10 callers of the ragged append step', n, 1)
     # D1: second step of the two-file write
     vcalls, icalls = roles['VALUESDIR'], roles['INDICESDIR']
     for ic in icalls:
